@@ -24,6 +24,7 @@ type spyFactory struct {
 	real  oidc.SessionStoreFactory
 	mu    sync.Mutex
 	spies map[oidc.SessionStore]*spyStore
+	tag   string // replica tag, part of the store ids
 }
 
 func (f *spyFactory) Get(cfg *oidcv1.OIDCConfig) oidc.SessionStore {
@@ -36,7 +37,7 @@ func (f *spyFactory) Get(cfg *oidcv1.OIDCConfig) oidc.SessionStore {
 	if s, ok := f.spies[rs]; ok {
 		return s
 	}
-	id := "s" + itoa(len(f.spies)+1)
+	id := f.tag + "s" + itoa(len(f.spies)+1)
 	s := &spyStore{d: f.d, real: rs, id: id}
 	f.spies[rs] = s
 	return s
